@@ -8,6 +8,7 @@ pub mod c18;
 pub mod c17;
 pub mod c02;
 pub mod c03;
+pub mod c06;
 pub mod oracle;
 
 pub type Suite = fn(&[i128]) -> Vec<i128>;
@@ -26,6 +27,8 @@ pub fn suites() -> Vec<(&'static str, Suite)> {
         ("fill_px", c02::run_fill_px as Suite),
         ("aruns", c03::run_aruns as Suite),
         ("aa_spans", c03::run_aa_spans as Suite),
+        ("hair_spans", c06::run_hair_spans as Suite),
+        ("hair_px", c06::run_hair_px as Suite),
     ]
 }
 
